@@ -14,13 +14,10 @@ From GV Require Import Base.Result Base.Host Gen.TokenTypes Gen.Defs Gen.Instr M
   Proofs.C01.EndToEnd.CompileBase Proofs.C01.EndToEnd.CompileProg.
 Import ListNotations.
 
-Lemma wf_body_irrelevant lvl e : efrag lvl e = true -> wf true e = true -> wf false e = true.
-Proof. destruct e; intros F H; try discriminate F; exact H. Qed.
-
-Lemma printable_parts lvl e : efrag lvl e = true -> printable e = true -> wf false e = true /\ paren_ok e = true.
+Lemma printable_parts e : printable e = true -> wf true e = true /\ paren_ok e = true.
 Proof.
-  intros F H. unfold printable, wf_prog in H. apply andb_true_iff in H. destruct H as [H P].
-  apply andb_true_iff in H. destruct H as [W _]. split; [eapply wf_body_irrelevant; eauto|exact P].
+  intros H. unfold printable, wf_prog in H. apply andb_true_iff in H. destruct H as [H P].
+  apply andb_true_iff in H. destruct H as [W _]. split; assumption.
 Qed.
 
 (* every link of the parsed node array stays inside it *)
@@ -66,8 +63,8 @@ Theorem printed_pipeline sym_hash e : efrag LV e = true -> printable e = true ->
     convert sym_hash (aprint e) ns (cci c0) = Ok (code (compile_prog sym_hash e)) /\
     ccj c0 = jt (compile_prog sym_hash e).
 Proof.
-  intros F Pr. destruct (printable_parts LV e F Pr) as [Wf P].
-  destruct (parse_printed LV e F Wf P) as (Tn & ns & Hp & Ht & D & O & R & Cov).
+  intros F Pr. destruct (printable_parts e Pr) as [Wf P].
+  destruct (parse_printed LV e true F Wf P) as (Tn & ns & Hp & Ht & D & O & R & Cov).
   destruct (compile_printed sym_hash e Tn ns F P R D) as (c0 & Hc & Hcv & Hj).
   exists Tn, ns, c0. split; [exact Hp|]. split.
   { destruct (denotes_root ns None Tn D) as (n & Hn & _). intros ->. destruct (nid Tn); discriminate Hn. }
